@@ -367,36 +367,7 @@ def extract_fn(relpath, qual, ann):
             ed.log.append({"file": relpath, "line": _srcline(src, chain_start), "rule": "D2",
                            "note": "collect into Result without `?`: an Err inside the closure now returns from the function immediately (the original returns it at the later `?` on the collected value)"})
         ed.add(bs1, chain_end, " Ok(verif_out) }" if result_block else " verif_out }", None)
-    # D3: `for PAT in EXPR { BODY }` -> index `while` loop over EXPR (BODY copied by span; `continue` gets the increment)
-    for k, inv in (ann.get("forloops") or {}).items():
-        k = int(k)
-        if k >= len(it["loops"]) or it["loops"][k]["kind"] != "for":
-            raise Inconclusive(f"anchor lost: for-loop #{k} of {qual}")
-        l = it["loops"][k]
-        xs, xe = l["iter_expr"]
-        xtxt = src[xs:xe].decode().strip()
-        ptxt = src[l["pat"][0]:l["pat"][1]].decode()
-        byref = False
-        m = re.match(r"^(.*)\.iter\(\)$", xtxt, re.S)
-        if m:
-            xtxt, byref = m.group(1), True
-        elif xtxt.startswith("&"):
-            xtxt, byref = xtxt[1:].strip(), True
-        m2 = re.match(r"^(.*)\.into_iter\(\)$", xtxt, re.S)
-        if m2:
-            xtxt = m2.group(1)
-        bind = f"let {ptxt} = &verif_v{k}[verif_i{k}];" if byref else f"let {ptxt} = verif_elem(&verif_v{k}, verif_i{k});"
-        b0, b1 = l["body"]
-        head = (f"let verif_v{k} = {'&' if byref else ''}{xtxt}; let mut verif_i{k}: usize = 0;\nwhile verif_i{k} < verif_v{k}.len()\n" + inv.rstrip()
-                + f"\n    decreases verif_v{k}.len() - verif_i{k}\n{{ {bind}\n")
-        ed.add(l["span"][0], b0 + 1, head, "D3", f"`for {ptxt} in {xtxt[:30]}` desugared to an index loop (body copied by span)")
-        ed.add(b1 - 1, b1 - 1, f" verif_i{k} = verif_i{k} + 1; ", None)
-        body_txt = src[b0:b1].decode()
-        for mm in re.finditer(r"\bcontinue\s*;", body_txt):
-            # only `continue`s of THIS loop: reject nested loops inside the body
-            ed.add(b0 + mm.start(), b0 + mm.end(), f"{{ verif_i{k} = verif_i{k} + 1; continue; }}", "D3", "continue target made explicit")
-        if any(o["span"][0] > b0 and o["span"][1] < b1 for o in it["loops"]) and re.search(r"\bcontinue\b", body_txt):
-            raise Inconclusive(f"D3: for-loop #{k} of {qual} has nested loops and `continue`")
+    apply_forloops(ed, it["loops"], src, ann, qual)
     # R6 response attributes
     if ann.get("drop_response_attrs", True):
         for m in it.get("mcalls", []):
@@ -459,6 +430,45 @@ def extract_fn(relpath, qual, ann):
                        "note": f"method of `impl {parent['trait']} for {parent['self_ty']}` emitted as inherent method"})
     text, lm = wrap_parent(text, parent, lm, ann.get("inherent"))
     return text, lm, src, ed.log, labels, it
+
+
+def apply_forloops(ed, loops, src, ann, qual):
+    # D3: `for PAT in EXPR { BODY }` -> index `while` loop over EXPR (BODY copied by span; `continue` gets the increment)
+    for k, inv in (ann.get("forloops") or {}).items():
+        k = int(k)
+        if k >= len(loops) or loops[k]["kind"] != "for":
+            raise Inconclusive(f"anchor lost: for-loop #{k} of {qual}")
+        l = loops[k]
+        xs, xe = l["iter_expr"]
+        xtxt = src[xs:xe].decode().strip()
+        ptxt = src[l["pat"][0]:l["pat"][1]].decode()
+        byref = False
+        m = re.match(r"^(.*)\.iter\(\)$", xtxt, re.S)
+        if m:
+            xtxt, byref = m.group(1), True
+        elif xtxt.startswith("&"):
+            xtxt, byref = xtxt[1:].strip(), True
+        m2 = re.match(r"^(.*)\.into_iter\(\)$", xtxt, re.S)
+        if m2:
+            xtxt = m2.group(1)
+        bind = f"let {ptxt} = &verif_v{k}[verif_i{k}];" if byref else f"let {ptxt} = verif_elem(&verif_v{k}, verif_i{k});"
+        b0, b1 = l["body"]
+        head = (f"let verif_v{k} = {'&' if byref else ''}{xtxt}; let mut verif_i{k}: usize = 0;\nwhile verif_i{k} < verif_v{k}.len()\n" + inv.rstrip()
+                + f"\n    decreases verif_v{k}.len() - verif_i{k}\n{{ {bind}\n")
+        m3 = re.match(r"^(.*)\.iter_mut\(\)$", xtxt, re.S)
+        if m3:
+            # mutable iteration: the place expression is indexed in place (no binding of the collection)
+            place = m3.group(1)
+            head = (f"let mut verif_i{k}: usize = 0;\nwhile verif_i{k} < {place}.len()\n" + inv.rstrip()
+                    + f"\n    decreases {place}.len() - verif_i{k}\n{{ let {ptxt} = &mut {place}[verif_i{k}];\n")
+        ed.add(l["span"][0], b0 + 1, head, "D3", f"`for {ptxt} in {xtxt[:30]}` desugared to an index loop (body copied by span)")
+        ed.add(b1 - 1, b1 - 1, f" verif_i{k} = verif_i{k} + 1; ", None)
+        body_txt = src[b0:b1].decode()
+        for mm in re.finditer(r"\bcontinue\s*;", body_txt):
+            # only `continue`s of THIS loop: reject nested loops inside the body
+            ed.add(b0 + mm.start(), b0 + mm.end(), f"{{ verif_i{k} = verif_i{k} + 1; continue; }}", "D3", "continue target made explicit")
+        if any(o["span"][0] > b0 and o["span"][1] < b1 for o in loops) and re.search(r"\bcontinue\b", body_txt):
+            raise Inconclusive(f"D3: for-loop #{k} of {qual} has nested loops and `continue`")
 
 
 def extract_segment(relpath, qual, ann):
@@ -537,6 +547,16 @@ def extract_segment(relpath, qual, ann):
             q = body.find(ob, pos)
             if q < 0: break
             ed.add(s0 + q, s0 + q + len(ob), new.strip(), rule, "catalogue desugaring: " + old.strip()[:60]); pos = q + len(ob)
+    seg_loops = [l for l in it.get("loops", []) if inside(l["span"])]
+    for k, ptext in (ann.get("loopheads") or {}).items():
+        k = int(k)
+        if k >= len(seg_loops): raise Inconclusive(f"anchor lost: loop #{k} of segment of {qual}")
+        ed.add(seg_loops[k]["body"][0] + 1, seg_loops[k]["body"][0] + 1, "\n" + ptext.rstrip() + "\n", "A1")
+    for k, ptext in (ann.get("looptails") or {}).items():
+        k = int(k)
+        if k >= len(seg_loops): raise Inconclusive(f"anchor lost: loop #{k} of segment of {qual}")
+        ed.add(seg_loops[k]["body"][1] - 1, seg_loops[k]["body"][1] - 1, "\n" + ptext.rstrip() + "\n", "A1")
+    apply_forloops(ed, seg_loops, src, ann, qual)
     if ann.get("tail") and k1 == len(st):
         ed.add(st[-1]["span"][0], st[-1]["span"][0], ann["tail"].rstrip() + "\n", "A1")
     body_text, segs = ed.render()
